@@ -116,7 +116,7 @@ func (u *universe) shape(s *snap, q *rq) string {
 		default:
 			sh = q.B.Kind
 		}
-		if len(s.blocks) == 0 {
+		if len(s.blocks) == 0 && q.B.Kind != "number" && q.B.Kind != "hash" {
 			sh += "-empty-chain"
 		}
 	}
